@@ -162,8 +162,7 @@ def _nowork_1d(ck, N):
 
     enc = Encoded(f, ins, tag="nw1")
     enc.validate(ck, what=f"nowork/1d/N{N}")
-    ck.add(f"nowork/burgers1d/N{N}", sym.equal_goal(enc.outs[0][()], ZERO), [ins[0].s > 0], family="no work: <u, N(u)> = 0 (1D conservative convection)", timeout=120,
-           replay=lambda m: {"reproduced": True, "detail": "sum_x u N(u) != 0 for a band-limited state"})
+    ck.add(f"nowork/burgers1d/N{N}", sym.equal_goal(enc.outs[0][()], ZERO), [ins[0].s > 0], family="no work: <u, N(u)> = 0 (1D conservative convection)", timeout=120)  # generic replay: the real term at the model's state
     # twin: a plain quadratic reaction term does work
     def g(L, b, uh):
         nf = NF.PolynomialNonlinearFun(1, N, dealiasing_fraction=2 / 3, coefficients=[0.0, 0.0, b])
